@@ -150,6 +150,13 @@ def _isolation_script(Pool):
     return out
 
 
+def _nested_pool_sum(n):
+    """Creates a pool of its own (allowed in non-daemonic workers only)."""
+    import multiprocessing
+    with multiprocessing.Pool(2) as inner:
+        return sum(inner.map(_sq, range(n)))
+
+
 def _pool_script(Pool):
     """The same script against any Pool implementation -> normalised observations."""
     obs = {}
@@ -197,6 +204,10 @@ def _pool_script(Pool):
             obs['unpicklable_result'] = type(e).__name__
         it = pool.imap(_sq, range(4))
         obs['next_then_rest'] = (next(it), list(it))
+        try:
+            obs['nested_pool_in_pool_worker'] = pool.apply(_nested_pool_sum, (4,))
+        except AssertionError as e:
+            obs['nested_pool_in_pool_worker'] = str(e)
         rs = [pool.apply_async(_sq, (i,)) for i in range(5)]
         n_polls = 0
         while not all(r.ready() for r in rs):         # polling caller
@@ -248,6 +259,7 @@ def _exec_script(mod):
         obs['wait_all'] = (len(done), len(pending), sorted(f.result() for f in done))
         f = ex.submit(_boom, 3)
         obs['exception'] = (type(f.exception()).__name__, f.exception().args)
+        obs['nested_pool_in_executor_worker'] = ex.submit(_nested_pool_sum, 4).result()
         try:
             list(ex.map(_boom, range(6)))
             obs['map_exception'] = 'none'
